@@ -6,6 +6,7 @@ import (
 	"bufio"
 	"context"
 	"encoding/json"
+	"errors"
 	"fmt"
 	"os"
 	"runtime"
@@ -105,12 +106,13 @@ type ctlSub struct {
 
 // Ctl is a cold, controllable source: every subscription registers its destination; the replayer emits on demand.
 type Ctl struct {
-	mu            sync.Mutex
-	subs          []*ctlSub
-	Subs          int
-	Torn          int
-	SubCtxMarkers []string
-	PanicOnSub    bool
+	mu              sync.Mutex
+	subs            []*ctlSub
+	Subs            int
+	Torn            int
+	SubCtxMarkers   []string
+	PanicOnSub      bool
+	PanicOnTeardown bool
 }
 
 func (c *Ctl) Observable(mode string, script []Step) ro.Observable[any] {
@@ -135,6 +137,9 @@ func (c *Ctl) Observable(mode string, script []Step) ro.Observable[any] {
 			c.mu.Lock()
 			c.Torn++
 			c.mu.Unlock()
+			if c.PanicOnTeardown {
+				panic(errors.New("verif: this teardown panics"))
+			}
 		}
 	}
 	if mode == "ctl-safe" {
